@@ -79,6 +79,12 @@ void breadcrumb(const char* text);
 // avoid exactly those triggers); loaded by the driver before any run.
 const std::vector<std::string>& known_signatures();
 
+// Warm-up: called once per process before its first run, with the process-lifetime sub-arena selected.  It exercises the
+// library so that whatever the library initialises once per process (lazily initialised function-local statics) is
+// allocated there and not inside a simulated run, whose sub-arenas are emptied when the run ends.
+using WarmUp = void (*)();
+void set_warm_up(WarmUp);
+
 // Registry
 void register_scenario(Scenario*);
 Scenario* find_scenario(const std::string& id);
